@@ -374,12 +374,16 @@ impl Scheme for Ipa {
 
     fn keys(k: &KeyRaw, _tier: Tier) -> Result<Keys<Self>, String> {
         let max = UNI_DEGS[pick(k.a, UNI_DEGS.len())];
-        Self::keys_sized(max, 1 + pick(k.b, max))
+        let sup = 1 + pick(k.b, max);
+        // the scheme enforces every bound up to the supported degree and documents the list handed to
+        // trim as ignored: hand it one anyway (None, empty or generated bounds within the supported degree)
+        let bounds = k.bounds.as_ref().map(|v| v.iter().map(|r| 1 + pick(*r, sup)).collect::<Vec<_>>());
+        Self::keys_sized(max, sup, bounds)
     }
     fn keys_large(_k: &KeyRaw, _tier: Tier, which: u64) -> Result<Keys<Self>, String> {
         // 256 and 512 generators and a little beyond; the whole key is supported
         let max = IPA_LARGE[(which % IPA_LARGE.len() as u64) as usize];
-        Self::keys_sized(max, max)
+        Self::keys_sized(max, max, None)
     }
     uni_common!(JFr, JUniPoly);
 }
@@ -387,12 +391,12 @@ impl Scheme for Ipa {
 pub const IPA_LARGE: [usize; 4] = [255, 256, 511, 300];
 
 impl Ipa {
-    fn keys_sized(max: usize, supported_req: usize) -> Result<Keys<Self>, String> {
+    fn keys_sized(max: usize, supported_req: usize, bounds: Option<Vec<usize>>) -> Result<Keys<Self>, String> {
         let pp = memo(format!("ipa:{}", max), || {
             out_to_res(guard(|| IpaPC::setup(max, None, &mut rng(1))), "setup")
         })?;
         let (ck, vk) = out_to_res(
-            guard(|| IpaPC::trim(&pp, supported_req, 0, None)),
+            guard(|| IpaPC::trim(&pp, supported_req, 0, bounds.as_deref())),
             "trim",
         )?;
         let supported = ck.supported_degree();
@@ -404,7 +408,7 @@ impl Ipa {
             any_bound: true,
             hiding: 4,
             num_vars: 1,
-            desc: json!({"max_degree_requested": max, "supported_requested": supported_req, "supported_reported": supported}),
+            desc: json!({"max_degree_requested": max, "supported_requested": supported_req, "supported_reported": supported, "bounds_handed_to_trim": bounds}),
         };
         Ok(Keys { pp, ck, vk, info })
     }
